@@ -141,13 +141,17 @@ def generate(repo, registry, contract, variant=None, fnode_override=None, opts=N
                  "lines": (fnode.lineno, getattr(fnode, "end_lineno", fnode.lineno)), "file": mod.path}
 
 
-def discharge(vcs, timeout_ms=20000, extra_assumption=None, use_cvc5=True):
+def discharge(vcs, timeout_ms=20000, extra_assumption=None, use_cvc5=True, stop_on_fail=False, skip=()):
     """Group by obligation id; an obligation is proved iff every path VC is unsat."""
     by = {}
     for vc in vcs:
         by.setdefault(vc.oid, []).append(vc)
     out = {}
     for oid, lst in by.items():
+        if oid in skip:
+            continue
+        if stop_on_fail and any(r["result"] != "unsat" for r in out.values()):
+            break
         rec = {"id": oid, "kind": lst[0].kind, "paths": len(lst), "result": "unsat", "seconds": 0.0,
                "solver": "", "model": None, "line": lst[0].lineno, "note": lst[0].note, "trivial": 0}
         solvers = set()
@@ -206,9 +210,9 @@ def verify_unit(repo, registry, contract, variant=None, timeout_ms=20000, canari
             try:
                 mut = mutate_function(fnode, can.old, can.new, can.count)
                 vcs2, _ = generate(repo, registry, contract, variant, fnode_override=mut, opts=opts)
-                obl = discharge(vcs2, min(timeout_ms, 10000))
-                failed = [o for o, r in obl.items() if r["result"] != "unsat"]
                 base_failed = set(o for o, r in res["obligations"].items() if r["result"] != "unsat")
+                obl = discharge(vcs2, min(timeout_ms, 4000), use_cvc5=False, stop_on_fail=True, skip=base_failed)
+                failed = [o for o, r in obl.items() if r["result"] != "unsat"]
                 newly = [o for o in failed if o not in base_failed]
                 if newly:
                     cres["killed"] = True
